@@ -380,6 +380,28 @@ for name, body in c20:
     probe("C20", "probe-arrmac", "probe_arr_" + name, body, toplevel=SLOT)
 
 
+
+# ------------------------------------------------------------------ comparing with native arrays / views of other lengths
+pair("eq-len", "eq_native_into", "let _ = arr![1u8, 2, 3] == [1, 2, 3].into(); assert_eq!(arr![1u8, 2, 3], [1, 2, 3].into());",
+     ["let _ = arr![1u8, 2, 3] == [1u8, 2];", "let _ = [1u8, 2] == arr![1u8, 2, 3];", "let _ = arr![1u8, 2, 3] == [1u8, 2, 3, 4];"], "Lk")
+# the native-array views exist for exactly one length (C02's clause, so also tagged for C02)
+for tag, prop in (("", "C12"), ("c02_", "C02")):
+    add(f"{tag}asref_native_len_acc", "let a = arr![1, 2, 3]; let r: &[i32; 3] = a.as_ref(); let mut b = arr![1, 2, 3]; let m: &mut [i32; 3] = b.as_mut(); m[0] = r[0];", "accept", "Lk", "array-conv", prop=prop)
+    for i, body in enumerate([
+        "let a = arr![1, 2]; let r: &[i32; 4] = a.as_ref(); let _ = r[3];",
+        "let mut a = arr![1, 2]; let m: &mut [i32; 4] = a.as_mut(); m[3] = 0;",
+        "let a = arr![1, 2, 3]; let r: &[i32; 2] = a.as_ref(); let _ = r[1];",
+        "let n = [1, 2, 3]; let g: &GenericArray<i32, U4> = (&n).into(); let _ = g[3];",
+        "let mut n = [1, 2, 3]; let g: &mut GenericArray<i32, U2> = (&mut n).into(); g[0] = 0;",
+    ]):
+        add(f"{tag}asref_native_len_rej{i + 1}", body, "reject", "Lk", "array-conv", twin=f"{tag}asref_native_len_acc", prop=prop)
+
+# unflatten with the row length named explicitly (not inferred from the result type)
+for n, m in ((2, 3), (3, 2), (1, 4), (4, 1), (2, 1), (1, 2), (3, 1)):
+    nm = n * m
+    probe("C11", "probe-unflatten", f"probe_unflatten_explicit_{n}_{m}",
+          f"let a: GenericArray<u32, U{nm}> = Default::default(); let r: GenericArray<GenericArray<u32, U{n}>, U{m}> = Unflatten::<u32, U{nm}, U{n}>::unflatten(a); let b: GenericArray<u32, U{nm}> = Default::default(); let v: &GenericArray<GenericArray<u32, U{n}>, U{m}> = Unflatten::<u32, U{nm}, U{n}>::unflatten(&b); let mut c: GenericArray<u32, U{nm}> = Default::default(); let w: &mut GenericArray<GenericArray<u32, U{n}>, U{m}> = Unflatten::<u32, U{nm}, U{n}>::unflatten(&mut c); let f: GenericArray<u32, U{nm}> = Flatten::<u32, U{n}, U{m}>::flatten(r); let _ = (v.len(), w.len(), f.len());")
+
 # ------------------------------------------------------------------ API-surface probes for the run-time properties
 # If a change makes an engine stop compiling, its property's probes say whether the API moved
 # altogether (all fail: inconclusive) or an operation vanished for some lengths / element types
